@@ -24,4 +24,5 @@ for c in m['checks']:
     assert d['property_id']==c['property_id']
 print("evidence + manifest valid")
 PY
+if [ $rc -eq 0 ]; then echo "REFRESH OK"; else echo "REFRESH FAILED (a check exited non-zero on the clean tree: do not commit this evidence)"; fi
 exit $rc
